@@ -52,6 +52,25 @@ fn main() {
         "c19" => spell::run_c19(&cfg),
         "parsetree" => spell::run_parsetree(&cfg),
         "parsetie" => parsetie::run(&cfg),
+        "one" => {
+            // replay of one recorded case: the implementation's answers, and the request lines for the driver
+            let pattern = arg(&args, "--pattern", "");
+            let text = arg(&args, "--text", "");
+            let pos: usize = arg(&args, "--pos", "0").parse().unwrap_or(0);
+            let mut s = session::Session::new(&cfg.out);
+            s.line(&format!("special\t{}", wire::hex("\\.+*?()|[]{}^$#")), "ok");
+            let b = s.pattern(&pattern, &session::Opts::default(), true, true);
+            println!("build: {}", b.answer);
+            if b.re.is_some() {
+                let a = s.caps(&b, &text, pos, false, 1_000_000);
+                println!("captures_from_pos({:?}, {}): {}", text, pos, a);
+                let re = b.re.as_ref().unwrap();
+                let it: Vec<String> = re.find_iter(&text).take(text.len() + 3)
+                    .map(|m| match m { Ok(m) => format!("({},{})", m.start(), m.end()), Err(e) => wire::error_name(&e) }).collect();
+                println!("find_iter: [{}]", it.join(" "));
+            }
+            s.finish();
+        }
         "list" => {
             for p in engine::patterns(&cfg.space, &cfg.tier, cfg.seed) {
                 println!("{}", p);
